@@ -606,8 +606,10 @@ func lemmaTypedGettersAgreeOnFound(st *SlimTrie, key string) (bool, bool, bool, 
 //@   ensures 0 <= result && int(result) < nN(st) && bitat(NTW(st), result) == 0
 
 // ---------------------------------------------------------------------------
-// scan (C04): the refusal contract of getGEPath. Only the exceptional postcondition, the
-// normal postcondition and the frame are claimed for this function (its descent is bounded-checked).
+// scan (C04): getGEPath — the refusal contract (exceptional and normal postcondition), the safety of the whole seek loop,
+// and FUNCTIONALLY: the "start key is present" flag it returns is exactly (walk(st, key, 0, 0) != -1), and when it is
+// set the last element of the returned path is that leaf (the same abstract descent GetID and searchID are proved
+// against, so Get(k) hits iff a scan started at k starts on k).
 
 //@ func (*SlimTrie).getGEPath
 //@   property C04 C07 C10
@@ -621,12 +623,36 @@ func lemmaTypedGettersAgreeOnFound(st *SlimTrie, key string) (bool, bool, bool, 
 //@   loop 1 invariant i%4 == 0
 //@   loop 1 invariant i%8 == 0 || rank1(NTW(st), eqID) >= nB(st)
 //@   loop 1 invariant qr != nil && qr.key == key && qr.keyBitLen == l && int(l) == 8*len(key) && ns == st.inner
+//@   loop 1 invariant !qr.hasLeafPrefix
+//@   loop 1 invariant walk(st, key, 0, 0) == walk(st, key, int(eqID), int(i))
 //@   loop 1 invariant len(path) <= int(eqID) && -1 <= rightPathLen && int(rightPathLen) <= len(path) && fresh(path)
 //@   loop 1 invariant (rID == -1 || (0 <= rID && int(rID) < nN(st))) && (rID != -1 ==> 0 <= rightPathLen)
 //@   loop 1 freshwrites E.Int
 //@   loop 1 invariant !fresh(ns.Inners.RankIndex) && !fresh(ns.NodeTypeBM.RankIndex) && !fresh(ns.ShortBM.RankIndex)
 //@   loop 1 decreases nN(st) - int(eqID)
 //@   after getNode#1 use at(qr.ithInner, eqID)
+//@   after getNode#1 use walk_leaf(st, key, int(eqID), int(i))
+//@   after getNode#1 use tail_facts(st, leaf_ord(st, int(eqID)))
+//@   after getNode#1 use W_tailok_def(st, key, leaf_ord(st, int(eqID)), int(i))
+//@   after getNode#1 use walk_nomatch(st, key, int(eqID), int(i), int(qr.ithInner))
+//@   after getNode#1 use walk_short(st, key, int(eqID), int(i), int(qr.ithInner), W_i1(st, int(qr.ithInner), int(i)))
+//@   after getNode#1 use walk_nobranch(st, key, int(eqID), int(i), int(qr.ithInner), W_i1(st, int(qr.ithInner), int(i)))
+//@   after getNode#1 use walk_end(st, key, int(eqID), int(i), int(qr.ithInner), W_i1(st, int(qr.ithInner), int(i)))
+//@   after getNode#1 assert qr.isInner == 1 ==> bitat(NTW(st), eqID) == 1 && rank1(NTW(st), eqID) == int(qr.ithInner)
+//@   after strCmpUpto#1 assert sameslice(qr.innerPrefix, W_ipb(st, int(qr.ithInner)))
+//@   after strCmpUpto#1 use W_ipm_def(st, key, int(qr.ithInner), int(i))
+//@   after strCmpUpto#1 assert (result == 0) == W_ipm(st, key, int(qr.ithInner), int(i))
+//@   after getLeftChildID#1 assert is_node(st, qr)
+//@   after getLeftChildID#1 assert int(i) == W_i1(st, int(qr.ithInner), athead(1, int(i)))
+//@   after getLeftChildID#1 assert !(W_hasip(st, int(qr.ithInner)) && !W_ipm(st, key, int(qr.ithInner), athead(1, int(i))))
+//@   after getLeftChildID#1 assert int(result1) == W_has(st, key, int(qr.ithInner), int(i)) && int(result0) == W_lch(st, key, int(qr.ithInner), int(i)) && int(qr.wordSize) == W_wsz(st, int(qr.ithInner))
+//@   after getLeftChildID#1 use walk_step(st, key, athead(1, int(eqID)), athead(1, int(i)), int(qr.ithInner), int(i), int(result0) + 1, int(qr.wordSize))
+//@   after cmpLeafPrefix#1 assert qr.isInner == 0 ==> int(i) == athead(1, int(i)) && int(eqID) == athead(1, int(eqID)) && int(qr.ithLeaf) == athead(1, leaf_ord(st, int(eqID))) && qr.hasLeafPrefix == has_tail(st, int(qr.ithLeaf))
+//@   after cmpLeafPrefix#1 assert qr.isInner == 0 && qr.hasLeafPrefix ==> has_tail(st, athead(1, leaf_ord(st, int(eqID)))) && sameslice(qr.leafPrefix, st.inner.LeafPrefixes.Bytes[tail_lo(st, athead(1, leaf_ord(st, int(eqID)))):tail_hi(st, athead(1, leaf_ord(st, int(eqID))))])
+//@   after cmpLeafPrefix#1 assert qr.isInner == 0 && qr.hasLeafPrefix ==> int(result) == bytes_cmp(bytesof(key[athead(1, int(i))/8:]), st.inner.LeafPrefixes.Bytes[tail_lo(st, athead(1, leaf_ord(st, int(eqID)))):tail_hi(st, athead(1, leaf_ord(st, int(eqID))))])
+//@   after cmpLeafPrefix#1 assert qr.isInner == 0 && qr.hasLeafPrefix && result == 0 ==> len(key) - athead(1, int(i))/8 == tail_hi(st, athead(1, leaf_ord(st, int(eqID)))) - tail_lo(st, athead(1, leaf_ord(st, int(eqID))))
+//@   after cmpLeafPrefix#1 assert qr.isInner == 0 && !qr.hasLeafPrefix ==> (result == 0) == (len(key) == athead(1, int(i))/8)
+//@   after cmpLeafPrefix#1 assert qr.isInner == 0 ==> (result == 0) == W_tailok(st, key, athead(1, leaf_ord(st, int(eqID))), athead(1, int(i)))
 //@   after getNode#1 assert qr.isInner == 1 ==> rank1(INW(st), qr.from) >= int(eqID)
 //@   after getNode#1 assert qr.isInner == 1 && is_short(st, int(qr.ithInner)) ==> rank1(INW(st), qr.from) + popcnt64(qr.bm) < nN(st)
 //@   after strCmpUpto#1 assert result == 0 ==> len(key) - int(i)/8 >= len(qr.innerPrefix) - 1
@@ -643,6 +669,8 @@ func lemmaTypedGettersAgreeOnFound(st *SlimTrie, key string) (bool, bool, bool, 
 //@   after getLeftChildID#1 use rank1_mono(NTW(st), int(eqID) + 1, int(result0) + 1)
 //@   ensures st.inner.NodeTypeBM == nil || (st.inner.InnerPrefixes != nil && st.inner.InnerPrefixes.PositionBM != nil && st.inner.LeafPrefixes != nil)
 //@   ensures st.inner.NodeTypeBM == nil ==> len(result0) == 0 && !result1
+//@   ensures st.inner.NodeTypeBM != nil ==> result1 == (walk(st, key, 0, 0) != -1)
+//@   ensures st.inner.NodeTypeBM != nil && result1 ==> len(result0) >= 1 && int(result0[len(result0)-1]) == walk(st, key, 0, 0)
 
 // ---------------------------------------------------------------------------
 // String() (C19): the label bitmap handed to bmtree.Decode
@@ -910,6 +938,15 @@ func lemmaTypedGettersAgreeOnFound(st *SlimTrie, key string) (bool, bool, bool, 
 //@   property C10 C09 C03
 //@   requires wf_query(st) && len(key) <= 100000000
 //@   ensures result0 == result1
+// C04 (start position): on a trie that supports scanning, the seek reports "the start key is present" exactly when GetID
+// finds it, and then the path it returns ends at GetID's leaf.
+//@ func lemmaSeekAgreesWithGetID
+//@   property C04 C10
+//@   requires wf_query(st) && len(key) <= 100000000
+//@   requires st.inner.NodeTypeBM != nil ==> st.inner.InnerPrefixes != nil && st.inner.InnerPrefixes.PositionBM != nil && st.inner.LeafPrefixes != nil
+//@   ensures result1 == (result2 != -1)
+//@   ensures result1 ==> len(result0) >= 1 && result0[len(result0)-1] == result2
+
 //@ func lemmaGetSearchRangeGetAgree
 //@   property C10 C03
 //@   requires wf_query(st) && len(key) <= 100000000 && (st.inner.NodeTypeBM != nil ==> wf_leaves(st) && st.encoder != nil)
@@ -1156,4 +1193,10 @@ func lemmaGetSearchRangeGetAgree(st *SlimTrie, key string) (interface{}, bool, i
 	_, ev, _ := st.Search(key)
 	rv, rf := st.RangeGet(key)
 	return v, f, ev, rv, rf
+}
+
+func lemmaSeekAgreesWithGetID(st *SlimTrie, key string) ([]int32, bool, int32) {
+	path, eq := st.getGEPath(key)
+	id := st.GetID(key)
+	return path, eq, id
 }
